@@ -13,7 +13,7 @@ RULE = (
     "(v**k).sum(), f(v).sum() with V full / permuted / superset / interleaved; transitions = API calls on the "
     "real code (builder ops, compute_hessian, compile_hessian per variable list); an evaluation = one Hessian "
     "entry (symbolic entry evaluated, or compiled matrix entry) compared with the second-order jet reference "
-    "at a twice-regular grid point, plus the symmetry test H == H^T.  Non-trivial = recipe with >=1 variable "
+    "at a twice-regular grid point, plus the symmetry test H == H^T; recipes holding a Parameter are additionally built at p in {1, 0, 2}, the parameter is then set to another value and the same symbolic / compiled Hessian objects are re-evaluated.  Non-trivial = recipe with >=1 variable "
     "and >=1 regular point; distinct by canonical recipe."
 )
 ASSUMPTIONS = [
@@ -157,9 +157,74 @@ def check_recipe(r, tier, seed, rep=None, want=None):
     return fails
 
 
+def check_param_phase(r, tier, seed, rep=None, want=None):
+    """Recipes with a Parameter: the Hessian (symbolic and compiled) is built while the parameter holds p0 (1, 0 and 2:
+    the values around which simplifications and constant folding fire), the parameter is then updated and the SAME
+    objects are evaluated: they must give the second derivatives at the parameter's current value."""
+    from optyx.core import autodiff
+    import checks.common as CC
+
+    fails = Fails(want)
+    for p0, p1 in ((1.0, 2.5), (0.0, 1.5), (2.0, 1.0)):
+        old = CC.PVAL
+        CC.PVAL = p0
+        try:
+            c = Case(r, tier, seed)
+        finally:
+            CC.PVAL = old
+        if c.skip or not c.pnames or not c.names:
+            return fails
+        vn = sorted(c.names, key=natural_key)
+        if p0 == 0.0:
+            vn = vn[::-1]
+        V = c.b.variables_for(vn)
+        try:
+            Hs = autodiff.compute_hessian(c.e, V)
+            hf = autodiff.compile_hessian(c.e, V)
+        except Exception as ex:
+            fails.add("exception:hessian:param-phase:" + type(ex).__name__, msg=str(ex)[:200], built_at=p0)
+            continue
+        for pn in c.pnames:
+            c.b.parameter(pn).set(p1)
+        c.params = {pn: p1 for pn in c.pnames}
+        try:
+            v, g, H, ok, reg, ev, eg, eH = c.jets(vn)
+        except Exception:
+            continue
+        n = len(vn)
+        if rep:
+            rep.transitions += 2 + len(c.pnames)
+        for k in np.flatnonzero(ok & reg)[:3]:
+            x = c.x_of(vn, k)
+            pd = c.point(k)
+            try:
+                got = np.asarray(hf(x), dtype=float)
+                sym = np.array([[float(np.asarray(Hs[i][j].evaluate(pd)).reshape(-1)[0]) for j in range(n)] for i in range(n)])
+            except Exception as ex:
+                fails.add("exception:hessian:param-phase:" + type(ex).__name__, msg=str(ex)[:200], built_at=p0, now=p1)
+                break
+            if rep:
+                rep.evaluations += 2 * n * n
+            if not close(got, H[:, :, k], eH[:, :, k], REL_D).all():
+                fails.add("compiled-hessian-ignores-parameter-update", order=vn, built_at=p0, now=p1, x=x, got=got, expected=H[:, :, k])
+                break
+            if not close(sym, H[:, :, k], eH[:, :, k], REL_D).all():
+                fails.add("symbolic-hessian-ignores-parameter-update", order=vn, built_at=p0, now=p1, x=x, got=sym, expected=H[:, :, k])
+                break
+    return fails
+
+
+def check_both(r, tier, seed, rep=None, want=None):
+    fs = check_recipe(r, tier, seed, rep, want)
+    if size(r) <= 7:
+        for k, d in check_param_phase(r, tier, seed, rep, want):
+            fs.append((k, d))
+    return fs
+
+
 def explore(item, tier, seed):
-    return std_explore(check_recipe, item, tier, seed, recipes(item, tier))
+    return std_explore(check_both, item, tier, seed, recipes(item, tier))
 
 
-culprit = std_culprit(check_recipe)
-replay = std_replay(check_recipe)
+culprit = std_culprit(check_both)
+replay = std_replay(check_both)
